@@ -28,7 +28,7 @@ ASSUMPTIONS = [
     "buffer sizes are constant per tokenisation, as the statement says (varying sizes are exercised under C01)",
     "work bound: steps <= 60*(len+2) monitored events",
 ]
-PROBES = ["token of 32 K bytes or more", "very long token", "refill inside string escape", "refill inside hex name escape", "refill inside number", "eof flush produced token"]
+PROBES = ["tokenized again under settings.STRICT", "token of 32 K bytes or more", "very long token", "refill inside string escape", "refill inside hex name escape", "refill inside number", "eof flush produced token"]
 TIERS = {
     "quick": {"batches": 16, "runs": 25000, "budget_s": 40, "kmax": 9, "sweep_len": 3},
     "thorough": {"batches": 64, "runs": 40000, "budget_s": 900, "kmax": 33, "sweep_len": 4},
@@ -193,6 +193,20 @@ def run(tape, ctx, item=None):
         data = gen_string(tape)
         sizes = [0] + list(range(1, kmax + 1))
     devs, toks = check_string(data, sizes, ctx)
+    if item is None and tape.coin(8, 100, "strict"):
+        # the library's strict mode is a setting of the object layers above; the tokenizer reads the same tokens under it
+        ctx.probe("tokenized again under settings.STRICT")
+        from pdfminer import settings as _settings
+
+        _settings.STRICT = True
+        try:
+            devs2, toks2 = check_string(data, sizes[:2], ctx)
+        finally:
+            _settings.STRICT = False
+        for d in devs2:
+            devs.append(Dev(d.sig + ":strict", "under settings.STRICT: " + d.msg))
+        if not devs2 and not devs and toks2 != toks:
+            devs.append(Dev("C14:strict-dependent", "data=%r: default mode gives %r, strict mode %r" % (data, toks, toks2)))
     if b"\\" in data and b"(" in data:
         ctx.probe("refill inside string escape")
     if b"#" in data and b"/" in data:
